@@ -18,7 +18,7 @@ import (
 
 type params struct {
 	MaxRetries int    `json:"max_retries"`
-	Env        string `json:"env"`       // "none" | "ack" | "result" | "ack+result"
+	Env        string `json:"env"`       // "none" | "ack" | "ack-batched" (msgs_ack listing an id nobody waits for before ours) | "result" | "ack+result"
 	SendFail   bool   `json:"send_fail"` // each transmission may fail as an environment deviation
 }
 
@@ -64,12 +64,16 @@ func body(p params, o *sx.Obs) {
 		}
 		done.Set()
 	})
-	if p.Env == "ack" || p.Env == "ack+result" {
+	if p.Env == "ack" || p.Env == "ack+result" || p.Env == "ack-batched" {
 		g.Go("ack", func() {
 			if !awaitSend() {
 				return
 			}
-			eng.NotifyAcks([]int64{4})
+			ids := []int64{4}
+			if p.Env == "ack-batched" {
+				ids = []int64{999, 4, 1000} // servers batch acks; 999/1000 were answered before they were acked
+			}
+			eng.NotifyAcks(ids)
 			o.Log("ackdone step=%d", vsched.Step())
 		})
 	}
@@ -122,7 +126,7 @@ func check(p params, o *sx.Obs, x *vsched.Sched) kit.Result {
 		}
 	}
 	if ret == "" {
-		if p.Env == "ack" && !failed {
+		if (p.Env == "ack" || p.Env == "ack-batched") && !failed {
 			// acknowledged and never answered: waiting forever is the specified behaviour
 			return kit.OKo("acked-waiting sends=" + fmt.Sprint(len(sends)))
 		}
@@ -172,7 +176,7 @@ func main() {
 	kit.Main("C25", "model_checking", func(c *kit.Ctx) {
 		var scs []params
 		for _, m := range []int{1, 2, 3} {
-			for _, env := range []string{"none", "ack", "result", "ack+result"} {
+			for _, env := range []string{"none", "ack", "ack-batched", "result", "ack+result"} {
 				for _, sf := range []bool{false, true} {
 					scs = append(scs, params{m, env, sf})
 				}
@@ -189,7 +193,7 @@ func main() {
 			sx.Explore(c, mk(scs[0]), 0, 0, 1)
 			return
 		}
-		c.Rule("real rpc.Engine (instrumented), one Do with MaxRetries 1..3 on the virtual clock x environment {nothing, ack, result, ack+result} x "+
+		c.Rule("real rpc.Engine (instrumented), one Do with MaxRetries 1..3 on the virtual clock x environment {nothing, ack, batched ack listing unknown ids around ours, result, ack+result} x "+
 			"{reliable send, each transmission may fail}; every schedule with <= %d deviations (preemption, timer firing while a thread can run, failed "+
 			"transmission); oracle: all transmissions carry the same id/seqno/body, happen at multiples of the retry interval, number <= 1+MaxRetries, no "+
 			"re-send triggered by a timer that fired after the ack/result delivery had completed, no ack => exactly MaxRetries re-sends then RetryLimitReachedErr.", bound)
